@@ -14,7 +14,7 @@ def build_mix(t, rng, count, tag):
     big = [k for k in files if len(t.files[k]) > 30000]
     for i in range(count):
         tok = "TOK%s%05dq" % (tag, i)
-        kind = ["static", "static-big", "range", "multirange", "notfound", "garbage", "builtin", "form-get", "form-post", "head", "options", "preflight", "origin", "form-multipart", "upload"][i % 15]
+        kind = ["static", "static-big", "range", "multirange", "notfound", "garbage", "builtin", "form-get", "form-post", "head", "options", "preflight", "origin", "form-multipart", "upload", "samefile-range", "samefile-range"][i % 17]
         f = files[i % len(files)]
         H = "Host: localhost\r\nX-Token: %s\r\n" % tok
         if kind == "static":
@@ -24,6 +24,10 @@ def build_mix(t, rng, count, tag):
         elif kind == "range":
             a = i % 20
             raw = "GET %s HTTP/1.1\r\n%sRange: bytes=%d-%d\r\n\r\n" % (f, H, a, a + 10 + i % 7)
+        elif kind == "samefile-range":
+            g = (big or files)[0]
+            a = (i * 977) % max(1, len(t.files[g]) - 2000)
+            raw = "GET %s HTTP/1.1\r\n%sRange: bytes=%d-%d\r\n\r\n" % (g, H, a, a + 1500 + i % 400)
         elif kind == "multirange":
             a = i % 10
             raw = "GET %s HTTP/1.1\r\n%sRange: bytes=%d-%d, %d-%d\r\n\r\n" % (f, H, a, a + 3, a + 8, a + 12 + i % 5)
@@ -157,6 +161,14 @@ def run(c):
     for cat in (">= 2 requests overlapping in every round", ">= 2 workers used", "every request kind", "in-process pool round"):
         c.need(cat)
     try:
+        # symlinked files in sub-directories (resolving them must not disturb anybody else: no chdir, no shared cursor)
+        regular = sorted(k for k in t.files if len(t.files[k]) > 40 and " " not in k)
+        for j, d in enumerate(sorted(t.dirs)[:3]):
+            tgt = regular[j % len(regular)]
+            up = "../" * d.count("/")
+            name = "%s/lnk%d.%s" % (d, j, tgt.rsplit(".", 1)[-1] if "." in os.path.basename(tgt) else "txt")
+            t.add_link(name, up + tgt[1:])
+            t.files[name] = t.files[tgt]   # servable like a file (content of its target)
         ws = (2, 4, 16) if c.quick else (1, 2, 4, 8, 16)
         rounds = 10 if c.quick else 60
         conns = 64
@@ -240,7 +252,7 @@ def run(c):
         hammer(c, t, rng)
         if all_rounds_overlapped and max_overlap_all >= 2:
             c.seen(">= 2 requests overlapping in every round")
-        if len(kinds_seen) >= 15:
+        if len(kinds_seen) >= 16:
             c.seen("every request kind")
         c.extra.update({"responses_compared": total_cmp, "bytes_compared": total_bytes, "max_in_flight_overlap": max_overlap_all})
         engine_a(c, t, rng)
@@ -251,7 +263,8 @@ def run(c):
 def hammer(c, t, rng):
     """many client threads request DIFFERENT static files back to back for a few seconds: a rare cross-worker race
     (sub-percent per request) needs volume, not variety"""
-    files = sorted(k for k in t.files if 40 < len(t.files[k]) < 20000 and " " not in k)[:12]
+    files = sorted(k for k in t.files if 40 < len(t.files[k]) < 20000 and " " not in k)
+    files = [k for k in files if k in t.links][:4] + [k for k in files if k not in t.links][:10]
     if len(files) < 4:
         return
     secs = 4 if c.quick else 30
